@@ -37,7 +37,7 @@ Eq3Heaps ==
 H3(t, u, v, tag) == [heap |-> [a |-> Fresh(t), b |-> Fresh(u), c |-> Fresh(v)],
                      builds |-> [a |-> "dense", b |-> "csr_unsorted", c |-> "csc"], tag |-> tag, gmd |-> <<>>]
 MergeHeaps ==
-  {H2b(MA, MB, "dense", "csr", "mrg:both-md-partial"), H2b(MA0, MB, "csc", "dense", "mrg:other-md-partial"),
+  {H2b(MA, MBq, "dense", "csr", "mrg:own-obs-shared-samples-permuted"), H2b(MA0, MBq, "csc", "dense", "mrg:own-obs-permuted-other-md"), H2b(MA, MB, "dense", "csr", "mrg:both-md-partial"), H2b(MA0, MB, "csc", "dense", "mrg:other-md-partial"),
    H2b(MA, MBp, "csr_unsorted", "dense", "mrg:permuted"), H2b(MA0, MBp, "dense", "coo", "mrg:nomd-permuted"),
    H2b(MA0, MBs, "dense", "dense", "mrg:other-smd-permuted"), H2b(MA0, MD0, "dense", "dense", "mrg:disjoint"),
    H2b(MA, MDm, "dense", "csr_zeros", "mrg:disjoint-md"), H2b(MA, MN, "csr_zeros", "dense", "mrg:nested"),
@@ -54,7 +54,7 @@ CountHeaps ==
    H1(CT23, "csr_zeros", "CT23z"), H1(T22, "coo", "T22"), H1(T32, "dense", "T32")}
 HG(t, b, tag, g) == [heap |-> [a |-> Fresh(t)], builds |-> [a |-> b], tag |-> tag, gmd |-> g]
 FileHeaps ==
-  {H1(F23num, "dense", "F23num"), H1(F23tax, "csr_unsorted", "F23tax"), H1(F11, "dense", "F11"),
+  {H1(F23cancel, "csr", "F23cancel"), H1(F23lead0, "dense", "F23lead0"), H1(F23num, "dense", "F23num"), H1(F23tax, "csr_unsorted", "F23tax"), H1(F11, "dense", "F11"),
    H1(F13, "csc", "F13"), H1(F31, "coo", "F31"), H1(F33dense, "csr_unsorted", "F33dense"),
    H1(T23, "csr_zeros", "T23z"), H1(T33, "csr_zeros", "T33z"), H1(T32, "csc", "T32"), H1(T22, "lil", "T22"),
    H1(F24frac, "csr_zeros", "F24frac"), H1(F22zero, "dense", "F22zero"), H1(F33part, "dense", "F33part"), H1(F22e, "dense", "F22e"),
@@ -67,7 +67,7 @@ FileHeaps ==
 WideHeaps == {H1(W2x10, "dense", "W2x10"), H1(W2x10, "csc", "W2x10c")}
 JsonHeaps == FileHeaps \cup {H1(F23json, "dense", "F23json"), H1(F23odd, "csr_unsorted", "F23odd")}
 SumHeaps ==
-  {H1(CT34, "dense", "CT34"), H1(CT34, "csr_zeros", "CT34z"), H1(CT23, "csr_unsorted", "CT23u"), H1(CT23, "csc", "CT23c"),
+  {H1(F23neg, "dense", "F23neg"), H1(F23neg, "csr_zeros", "F23negz"), H1(F23cancel, "csc", "F23cancel"), H1(CT34, "dense", "CT34"), H1(CT34, "csr_zeros", "CT34z"), H1(CT23, "csr_unsorted", "CT23u"), H1(CT23, "csc", "CT23c"),
    H1(F23num, "dense", "F23num"), H1(F33dense, "coo", "F33dense"), H1(T33, "csr_zeros", "T33z"), H1(T23, "lil", "T23"),
    H1(F31, "dense", "F31"), H1(F13, "csr_zeros", "F13z"), H1(F24frac, "dense", "F24frac")}
 CtorHeaps ==
@@ -75,7 +75,7 @@ CtorHeaps ==
    H1(F13, "dense", "F13"), H1(F31, "dense", "F31"), H1(F24frac, "dense", "F24frac"), H1(CT34, "dense", "CT34"),
    H1(F23num, "dense", "F23num"), H1(T23zero, "dense", "T23zero")}
 ValHeaps ==
-  {H1(F23num, "dense", "F23num"), H1(F23tax, "csr_unsorted", "F23tax"), H1(T23, "csr_zeros", "T23z"),
+  {H1(F23lead0, "dense", "F23lead0"), H1(F23num, "dense", "F23num"), H1(F23tax, "csr_unsorted", "F23tax"), H1(T23, "csr_zeros", "T23z"),
    H1(T33, "csc", "T33"), H1(F33dense, "dense", "F33dense"), H1(F13, "dense", "F13"), H1(F24frac, "coo", "F24frac")}
 Len4Heaps == {H1(T44, "csr_unsorted", "T44u"), H1(T44, "csc", "T44c"), H2(T44, T44p, "dense", "T44+p")}
 HeapSets == [len4 |-> Len4Heaps, wide |-> WideHeaps, one |-> {H1(T22, "dense", "T22")}, pairs |-> MergeHeaps \cup ConcatHeaps \cup CountHeaps, val |-> ValHeaps, sum |-> SumHeaps, ctor |-> CtorHeaps, files |-> FileHeaps, json |-> JsonHeaps,std |-> MCInitHeaps, eq |-> EqHeaps, eq3 |-> Eq3Heaps, all |-> MCInitHeaps \cup EqHeaps, mrg |-> MergeHeaps,
